@@ -40,6 +40,9 @@ type Prog struct {
 	// Via: for a function f passed as argument to a module function H that calls
 	// its parameter: the call instructions inside H that invoke f.
 	Via map[*ssa.Function][]ssa.CallInstruction
+	// ParamCallees: for a call of a function-typed parameter inside H, the
+	// functions the callers pass (edges that the refinement moved to the callers)
+	ParamCallees map[ssa.CallInstruction][]*ssa.Function
 }
 
 func shortPath(p string) string {
@@ -159,7 +162,8 @@ func (p *Prog) CG() *callgraph.Graph {
 		p.chaCG = cha.CallGraph(p.SSA)
 		p.cg = vta.CallGraph(ssautil.AllFunctions(p.SSA), p.chaCG)
 		p.Via = map[*ssa.Function][]ssa.CallInstruction{}
-		p.Refined = refineParamCalls(p.cg, p.Via)
+		p.ParamCallees = map[ssa.CallInstruction][]*ssa.Function{}
+		p.Refined = refineParamCalls(p.cg, p.Via, p.ParamCallees)
 	}
 	return p.cg
 }
@@ -172,7 +176,7 @@ func (p *Prog) CG() *callgraph.Graph {
 // named function) for f, the edges H -> * of that call site are replaced by
 // direct edges caller -> passed function, attached to the caller's call site.
 // Otherwise the VTA edges are kept (sound fallback).
-func refineParamCalls(cg *callgraph.Graph, via map[*ssa.Function][]ssa.CallInstruction) []string {
+func refineParamCalls(cg *callgraph.Graph, via map[*ssa.Function][]ssa.CallInstruction, pc map[ssa.CallInstruction][]*ssa.Function) []string {
 	var log []string
 	type job struct {
 		h    *callgraph.Node
@@ -258,6 +262,7 @@ func refineParamCalls(cg *callgraph.Graph, via map[*ssa.Function][]ssa.CallInstr
 		for _, a := range adds {
 			callgraph.AddEdge(a.caller, a.site, cg.CreateNode(a.fn))
 			via[a.fn] = append(via[a.fn], j.site)
+			pc[j.site] = append(pc[j.site], a.fn)
 		}
 		log = append(log, fmt.Sprintf("%s: parameter call resolved per caller (%d caller edges)", shortName(j.h.Func), len(adds)))
 	}
